@@ -462,7 +462,7 @@ pub fn run(ctx: &Ctx, p: Prop) {
         Prop::C04 => "Naming-biased histories (rename, direct SHORT-NAME edits, moves, copies, removals, loads/merges, file removal) of length <= 40; after every step the map path -> element derived from the tree (concatenated item names) is compared with identifiable_elements(), get_element_by_path() on all expected, former (ghost) and one-edit paths, Element::path(), and pairwise distinctness. Non-trivial: a successful rename/move/copy/remove/load/SHORT-NAME edit; distinct by executed call sequence.",
         Prop::C05 => "Reference-biased histories (set_reference_target, text edits of references, clearing, rename/move/copy/delete of references and targets, loads) of length <= 40; after every step the multimap text -> reference elements derived from the tree is compared with ALL keys of the reverse map (hook) and get_references_to(); check_references() must equal the set of references whose target is missing or whose DEST does not fit, and r is outside the report exactly when get_reference_target(r) returns the expected element. Non-trivial: >= 1 successful edit touching a reference or target; distinct by executed call sequence. Second sub-property (loaded-references): generated documents whose reference texts are padded with white space / line breaks or written with a character reference are loaded (strict and lenient); the same comparison runs after the load and after a rename of a target (non-trivial: a padded or escaped text).",
         Prop::C10 => "File-set histories (create_file, add_to_file, remove_from_file, remove_file, load, set_filename, duplicate, structural edits) on 1-4 files; after every step: local set is a subset of the parent's effective set and of the model's files, every element is in >= 1 file, file.elements_dfs() and the re-loaded file.serialize() equal the projection of the tree onto the file. Non-trivial: a successful structural or file-set edit while the model has >= 2 files; distinct by executed call sequence.",
-        Prop::C11 => "Histories in which every call that returns an error (incl. loads failing in the lexer, late in the parser, in the merge, in the overlap check, on a duplicate file name) is framed by a full snapshot (tree with values, attributes, comments, local file sets; identifiable map; path lookups incl. ghost paths; reverse reference map; invalid-reference report; file list): snapshot before == snapshot after. Non-trivial: the history contains a failing call; distinct by executed call sequence.",
+        Prop::C11 => "Histories in which every call that returns an error (incl. loads failing in the lexer, late in the parser, in the merge, in the overlap check, on a duplicate file name) is framed by a full snapshot (tree with values, attributes, comments, local file sets; identifiable map; path lookups incl. ghost paths; reverse reference map; invalid-reference report; file list): snapshot before == snapshot after. Non-trivial: the history contains a failing call; distinct by executed call sequence. Second sub-property (lowered-version): the fixture's AR-PACKAGES is added to a new file of an older version (which lowers the version its content has to fit), then generated repositions of elements inside their own parent (move_element_here_at / move_element_here) and create_sub_element_at calls are framed by the same snapshot comparison.",
     };
     ctx.set_rule(rule);
     ctx.assume("element identity is the crate's Element: Eq + Hash (pointer identity); the tree is read through content() only");
@@ -480,6 +480,15 @@ pub fn run(ctx: &Ctx, p: Prop) {
             Err(f) => Outcome::Fail(f),
         }
     });
+    if p == Prop::C11 {
+        // calls on content that was valid when built and is not permitted any more after an older file took it in
+        let n = ctx.tier.pick(3_000u64, 30_000u64);
+        let strat = (0u8..5, proptest::collection::vec((any::<u16>(), 0u8..6, 0u8..3), 1..12));
+        run_prop(ctx, "lowered-version", n, strat, |(vsel, steps), st| match run_lowered_version(*vsel, steps, st) {
+            Ok(()) => Outcome::Pass,
+            Err(f) => Outcome::Fail(f),
+        });
+    }
     if p == Prop::C05 {
         // the parser's own registration of references: texts padded with white space / written with character references
         let n = ctx.tier.pick(4_000u64, 40_000u64);
@@ -651,9 +660,71 @@ pub fn run_loaded_refs(doc: &str, strict: bool, st: &mut Stats) -> Result<(), Fa
     Ok(())
 }
 
+
+// ---------------------------------------------------------------------------------------------
+// C11, second sub-property: calls that fail LATE because the permitted version of the content was lowered after it was built
+
+const OLD_VERSIONS: [AutosarVersion; 5] = [AutosarVersion::Autosar_4_0_1, AutosarVersion::Autosar_4_1_1, AutosarVersion::Autosar_4_3_0, AutosarVersion::Autosar_00044, AutosarVersion::Autosar_00048];
+
+pub fn run_lowered_version(vsel: u8, steps: &[(u16, u8, u8)], st: &mut Stats) -> Result<(), Failure> {
+    st.eval();
+    let case = json!({"kind": "lowered-version", "vsel": vsel, "steps": steps.iter().map(|(a, b, c)| json!([a, b, c])).collect::<Vec<_>>()});
+    let mut w = World::fixture(0);
+    let m = w.models[0].clone();
+    let old = OLD_VERSIONS[vsel as usize % OLD_VERSIONS.len()];
+    let mut log = vec![];
+    let Ok(fo) = m.create_file("old.arxml", old) else { return Ok(()) };
+    w.files.push(FileH { model: 0, file: fo.clone() });
+    let Some(pk) = m.root_element().get_sub_element(ElementName::ArPackages) else { return Ok(()) };
+    if pk.add_to_file(&fo).is_err() {
+        st.class("lowered-version:add_to_file-refused");
+        return Ok(());
+    }
+    log.push(format!("create_file(\"old.arxml\", {old:?}); <AR-PACKAGES>.add_to_file(old.arxml)"));
+    let mut failing = 0;
+    for (sel, pos, kind) in steps {
+        w.rescan();
+        let ids: Vec<usize> = w.live[0].iter().map(|x| x.0).collect();
+        if ids.len() < 2 {
+            break;
+        }
+        let e = w.elems[ids[1 + ((*sel as usize * (ids.len() - 1)) >> 16)]].clone();
+        let Ok(Some(p)) = e.parent() else { continue };
+        let before = snapshot(&mut w, 0, false);
+        let (what, res): (String, Result<(), AutosarDataError>) = match kind % 3 {
+            0 => (format!("<{}>.move_element_here_at(its own child <{}>, {pos})", p.element_name(), e.element_name()), crate::engine::no_panic(|| p.move_element_here_at(&e, *pos as usize).map(|_| ())).unwrap_or(Ok(()))),
+            1 => (format!("<{}>.move_element_here(its own child <{}>)", p.element_name(), e.element_name()), crate::engine::no_panic(|| p.move_element_here(&e).map(|_| ())).unwrap_or(Ok(()))),
+            _ => (format!("<{}>.create_sub_element_at({}, {pos})", p.element_name(), e.element_name()), crate::engine::no_panic(|| p.create_sub_element_at(e.element_name(), *pos as usize).map(|_| ())).unwrap_or(Ok(()))),
+        };
+        log.push(format!("{} {what}", if res.is_ok() { "ok   " } else { "ERROR" }));
+        if let Err(err) = res {
+            failing += 1;
+            st.class(&format!("lowered-version:failing-call:{}", crate::hist::err_variant(&err)));
+            w.rescan();
+            let after = snapshot(&mut w, 0, false);
+            if let Some(d) = before.diff(&after) {
+                let k = ["move_at-same-parent", "move-same-parent", "create_at"][(*kind % 3) as usize];
+                return Err(Failure::new(&format!("failed-op-changed-state:lowered-version:{k}:{}", crate::hist::err_variant(&err)), format!("the call returned {err} but the model changed: {d}\n--- history (fixture 0) ---\n  {}", log.join("\n  ")), case));
+            }
+        }
+    }
+    if failing > 0 {
+        st.nontrivial(fnv(log.join("\n").as_bytes()));
+        if st.want_sample() {
+            st.sample(json!({"lowered_version_history": log}));
+        }
+    }
+    Ok(())
+}
+
 pub fn replay(ctx: &Ctx, p: Prop, case: &Value) {
     let mut st = Stats::new();
-    if case["kind"] == "loaded-refs" {
+    if case["kind"] == "lowered-version" {
+        let steps: Vec<(u16, u8, u8)> = case["steps"].as_array().map(|a| a.iter().map(|t| (t[0].as_u64().unwrap_or(0) as u16, t[1].as_u64().unwrap_or(0) as u8, t[2].as_u64().unwrap_or(0) as u8)).collect()).unwrap_or_default();
+        if let Err(f) = run_lowered_version(case["vsel"].as_u64().unwrap_or(0) as u8, &steps, &mut st) {
+            ctx.report(f);
+        }
+    } else if case["kind"] == "loaded-refs" {
         if let Err(f) = run_loaded_refs(case["doc"].as_str().unwrap_or(""), case["strict"].as_bool().unwrap_or(true), &mut st) {
             ctx.report(f);
         }
